@@ -95,6 +95,14 @@ def analyse(mod, run, label, names=None):
             while o["k"] == "inst" and fn.imap[o["v"]].op in ("zext", "sext", "trunc"): o = fn.imap[o["v"]].ops[0]
             root = w.fi(fn).prepare().ptr(fn.imap[o["v"]].ops[0])[0]
             if root[0] != "arg" or root[1] not in wparams: continue      # only objects this function modifies
+            # an assertion about the type (one side of the test only reports the failed assertion) is a precondition, not a dispatch
+            is_assert = False
+            for u in fn.insts():
+                if u.op == "br" and len(u.ops) == 3 and u.ops[0]["k"] == "inst" and u.ops[0]["v"] == i.id:
+                    for sx in (u.ops[1]["v"], u.ops[2]["v"]):
+                        sb = fn.bmap[sx]
+                        if any(c.get("callee") in ("__assert_fail", "abort", "__assert_rtn") for c in sb.insts if c.op == "call") or sb.term.op == "unreachable": is_assert = True
+            if is_assert: continue
             tested.setdefault(root[1], set()).add(int(i.ops[1]["v"])); first = first or i
         for k, vals in tested.items():
             # a switch over the same object's type in this function covers the remaining enumerators
